@@ -115,6 +115,15 @@ def _limit():
         pass
 
 
+def _crash_text(stderr):
+    """The part of a child's stderr that says why it died: from the first panic / fatal-error line on (a stack
+    overflow is followed by a dump far longer than any tail), plus the tail."""
+    m = re.search(r"^(panic: |fatal error: |runtime: goroutine stack exceeds)", stderr, re.M)
+    if m and m.start() < len(stderr) - 12000:
+        return stderr[m.start():m.start() + 9000] + "\n...\n" + stderr[-6000:]
+    return stderr[-12000:]
+
+
 def run_child(binary, scenario, seed0, runs, tier, procs, outfile, variant="", plan=None, tape=False, timeout=600):
     cmd = [binary, "-test.run", "^TestVerif$", "-test.timeout", "0", "-verif.scenario", scenario,
            "-verif.seed0", str(seed0), "-verif.runs", str(runs), "-verif.tier", tier, "-verif.out", outfile,
@@ -127,7 +136,7 @@ def run_child(binary, scenario, seed0, runs, tier, procs, outfile, variant="", p
         cmd += ["-verif.tape"]
     try:
         p = subprocess.run(cmd, capture_output=True, text=True, timeout=timeout, cwd=TMP, preexec_fn=_limit)
-        return p.returncode, p.stdout[-6000:] + p.stderr[-12000:], False
+        return p.returncode, p.stdout[-6000:] + _crash_text(p.stderr), False
     except subprocess.TimeoutExpired as e:
         so = (e.stdout or b"")
         se = (e.stderr or b"")
